@@ -268,3 +268,21 @@ func writeJSON(path string, v any) {
 
 // Join is a small helper for messages.
 func Join(ss []string) string { return strings.Join(ss, ", ") }
+
+// Borrow copies the obligations of the named rules (and every failure to
+// decide) from a report another property's rule set filled: a property that
+// rests on a clause decided elsewhere reports it under its own name too.
+func (r *Report) Borrow(from *Report, rules ...string) {
+	want := map[string]bool{}
+	for _, x := range rules {
+		want[x] = true
+	}
+	for _, o := range from.Obs {
+		if want[o.Rule] {
+			r.Ob(o.Rule, o.Construct, o.Pos, o.OK, o.Msg)
+		}
+	}
+	for _, f := range from.Fatal {
+		r.Fatal = append(r.Fatal, "("+from.Property+" rule set) "+f)
+	}
+}
